@@ -73,8 +73,11 @@ type Downstream struct {
 	chunkAckIDSequence    *sequenceNumberGenerator
 	finalAckFlushed       chan struct{}
 
-	state           *streamState
-	connStatus      *connStatus
+	state      *streamState
+	connStatus *connStatus
+	// connGeneration is connStatus.Connects() of the wire connection the stream is attached to (wireConn).
+	// It is set when the stream is opened and by resume, i.e. never while run is running.
+	connGeneration  uint64
 	eventDispatcher *eventDispatcher
 }
 
@@ -234,8 +237,10 @@ func (d *Downstream) run() error {
 	})
 
 	eg.Go(func() error {
+		// The run also ends when the connection has been re-established since the stream was attached to its wire
+		// connection: a redial can be over before this goroutine gets to see the status "reconnecting".
 		d.connStatus.cond.L.Lock()
-		for !d.connStatus.IsWithoutLock(connStatusReconnecting) {
+		for !d.connStatus.IsWithoutLock(connStatusReconnecting) && d.connStatus.connectsWithoutLock() == d.connGeneration {
 			select {
 			case <-ctx.Done():
 				d.connStatus.cond.L.Unlock()
@@ -542,9 +547,10 @@ func (d *Downstream) resume(parentConn *Conn) error {
 	if !d.state.Is(streamStatusResuming) {
 		return fmt.Errorf("invalid state want[%v] but[%v]", streamStatusResuming, d.state)
 	}
-	wireConn := parentConn.currentWireConn()
+	wireConn, connGeneration := parentConn.currentWireConnAndGeneration()
 	d.mu.Lock()
 	d.wireConn = wireConn
+	d.connGeneration = connGeneration
 	d.mu.Unlock()
 
 	var resErr error
